@@ -82,8 +82,13 @@ def docs(draw, isar=False):
         base = draw(expr.expressions(dict(env), depth=2, **skw))
         k = draw(st.integers(1, 9))
         e = Bin('+', Bin('-', base, Num(base.eval(env))), Num(k))
-        if draw(st.booleans()):
+        form = draw(st.integers(0, 3))
+        if form == 0:
             e = Bin('*', Paren(e) if draw(st.booleans()) else e, Num(draw(st.integers(1, 3))))
+        elif form == 1:
+            # a product of two sums (the two extents of a two-dimensional array, see render_isar)
+            base2 = draw(expr.expressions(dict(env), depth=1, **skw))
+            e = Bin('*', e, Bin('+', Bin('-', base2, Num(base2.eval(env))), Num(draw(st.integers(1, 6)))))
         v = e.eval(env)
         if not 1 <= v <= 64:
             e, v = Num(k), k
@@ -153,9 +158,13 @@ def render_isar(d):
         out.append('<enum name="E0">%s</enum>' % ''.join(
             '<enum-member name="%s" value="%s"/>' % (n, _xml(expr.render(e, syn, d.style))) for k, n, e, v, o in ens))
     sizes = [it for it in d.items if it[0] == 'size']
+    def dim(e):
+        # a product may be written as the two extents of a two-dimensional array (each an expression of its own)
+        if isinstance(e, expr.Bin) and e.op == '*' and not isinstance(e.a, expr.Paren) and len(expr.render(e, syn)) % 3:
+            return 'size="%s" size2="%s"' % (_xml(expr.render(e.a, syn, d.style)), _xml(expr.render(e.b, syn, d.style)))
+        return 'size="%s"' % _xml(expr.render(e, syn, d.style))
     out.append('<struct name="S0">%s</struct>' % ''.join(
-        '<member name="%s" type="u8"><dimension size="%s"/></member>' % (n, _xml(expr.render(e, syn, d.style)))
-        for k, n, e, v, o in sizes))
+        '<member name="%s" type="u8"><dimension %s/></member>' % (n, dim(e)) for k, n, e, v, o in sizes))
     discs = [it for it in d.items if it[0] == 'disc']
     out.append('<union name="U0">%s</union>' % ''.join(
         '<member name="%s" type="u8" discriminatorValue="%s"/>' % (n, _xml(expr.render(e, syn, d.style)))
@@ -437,9 +446,46 @@ def worker(widx, seed, tier, stats):
                          shrink=(tier == 'thorough'))
 
 
+def regress(stats):
+    """Replay tier: saved inputs {isar, files: {name: text} (main file m.xml / m.prophy), expect: {consts: {name: int},
+    lengths: {'Struct.field': n}}} of defects found earlier; the generated Python module must give exactly these."""
+    import glob
+    import json
+    import shutil
+    for path in sorted(glob.glob(os.path.join(runner.VERIF, 'regress', ID, '*.json'))):
+        d = json.load(open(path))['case']['details']
+        work = pyh.fresh_dir('c14r')
+        stats.notes['regress_cases'] += 1
+        try:
+            for fn, text in d['files'].items():
+                with open(os.path.join(work, fn), 'w') as f:
+                    f.write(text)
+            main = 'm.xml' if d['isar'] else 'm.prophy'
+            try:
+                pyh.run_prophyc((['--isar'] if d['isar'] else []) + ['--python_out', work, os.path.join(work, main)])
+                work, mod = import_py(work, None)
+                got = {}
+                for n in d['expect'].get('consts', {}):
+                    got[n] = getattr(mod, n, None)
+                for n in d['expect'].get('lengths', {}):
+                    sname, fname = n.split('.')
+                    got[n] = len(getattr(getattr(mod, sname)(), fname))
+                want = dict(d['expect'].get('consts', {}), **d['expect'].get('lengths', {}))
+                bad = {k: (got[k], want[k]) for k in want if got[k] != want[k] or isinstance(got[k], float)}
+                if bad:
+                    stats.violations.append({'what': 'regression input %s: (got, integer arithmetic) %r' % (
+                        os.path.basename(path), bad), 'case': {'details': d}})
+            except Exception as ex:
+                stats.violations.append({'what': 'regression input %s: %s: %s' % (
+                    os.path.basename(path), type(ex).__name__, str(ex)[:200]), 'case': {'details': d}})
+        finally:
+            shutil.rmtree(work, ignore_errors=True)
+
+
 def run(tier, seed):
     t0 = time.time()
     stats = runner.run_workers(__name__, 'worker', seed, tier)
+    regress(stats)
     return runner.finish(ID, tier, seed, LEVEL, RULE, stats, t0, ASSUME)
 
 
